@@ -5,6 +5,7 @@ package main
 import (
 	"encoding/json"
 	"fmt"
+	"github.com/metal-toolbox/audito-maldito/internal/verifharness/hutil"
 	"reflect"
 	"sort"
 	"time"
@@ -227,7 +228,12 @@ func init() { auditd.SetLogger(zap.NewNop().Sugar()) }
 func runReal(sc Scenario) RunResult {
 	var res RunResult
 	enc := &recEnc{}
-	tr := sessiontracker.NewSessionTracker(auditevent.NewAuditEventWriter(enc), nil)
+	auditd.SetLogger(hutil.Logger(sc.Debug))
+	var trLog *zap.SugaredLogger
+	if sc.Debug {
+		trLog = hutil.Logger(true)
+	}
+	tr := sessiontracker.NewSessionTracker(auditevent.NewAuditEventWriter(enc), trLog)
 	errs := make(chan error, 64)
 	ra, err := libaudit.NewReassembler(1000, 2*time.Second, auditd.VerifNewStream(tr, errs, time.Time{}))
 	if err != nil {
